@@ -91,6 +91,9 @@ static int dispatch_hand(char **tok, int nt) {
   if (IS("GetRadioNuclideDataByIndex", 1)) { int k = atoi(tok[1]); CALL(pr_rnd(xrlpp::GetRadioNuclideDataByIndex(k))); return 1; }
   if (IS("GetRadioNuclideDataList", 0)) { CALL(pr_list(xrlpp::GetRadioNuclideDataList())); return 1; }
   if (IS("Refractive_Index", 3)) { std::string s = ps(tok[1]); double E = pd(tok[2]), d = pd(tok[3]); CALL(pr_c(xrlpp::Refractive_Index(s, E, d))); return 1; }
+  if (IS("Atomic_FactorsM", 5)) { int Z = atoi(tok[1]); double E = pd(tok[2]), q = pd(tok[3]), df = pd(tok[4]); int mk = atoi(tok[5]);
+    /* output slots selected by the mask; a NULL slot means "do not evaluate that factor" in C (its argument checks are skipped too) */
+    CALL(double f0 = 0; double fp = 0; double fpp = 0; int r = xrlpp::Crystal::Atomic_Factors(Z, E, q, df, (mk & 1) ? &f0 : nullptr, (mk & 2) ? &fp : nullptr, (mk & 4) ? &fpp : nullptr); pr_i(r); if (r) { pr_d(f0); pr_d(fp); pr_d(fpp); }); return 1; }
   if (IS("Atomic_Factors", 4)) { int Z = atoi(tok[1]); double E = pd(tok[2]), q = pd(tok[3]), df = pd(tok[4]);
     CALL(double f0 = 0; double fp = 0; double fpp = 0; int r = xrlpp::Crystal::Atomic_Factors(Z, E, q, df, &f0, &fp, &fpp); pr_i(r); if (r) { pr_d(f0); pr_d(fp); pr_d(fpp); }); return 1; }
   if (IS("Crystal_GetCrystalsList", 0)) { CALL(pr_list(xrlpp::Crystal::GetCrystalsList())); return 1; }
